@@ -79,7 +79,7 @@ CLAIMED["C14"] = dict(
 
 CLAIMED["C11"] = dict(
   text="Symbolic execution (SMT over go/ssa) of the REAL rtpconn.handleClientMessage with the membership state produced by REAL joins/leaves (handleClientMessage -> group.AddClient -> Description.GetPermission with plaintext passwords): one message out of 57 variants (every type and kind; present, absent and unknown destinations and ids; well- and ill-typed values) from a client in each of 5 membership states (never joined, member, join refused by a locked group, left, redirected) holding the rights of each role x recording/unrestricted-token flags. Every privileged effect is an effect stub or an observable state change and is asserted to have happened only for a current member holding the required permission: publish (present), chat/caption forwarding and history, lock, clearchat, op/unop/present/unpresent/shutup/kick, identify, subgroups, setdata (op), record, token creation (token, own group), token edit/list (op and token, own group only); a non-member holds no permission; leave clears the rights.",
-  note="The quantified domain here is a finite vocabulary which the executor covers exhaustively (8631 work items); the solver decides the string comparisons and branch feasibility on each. NOT encoded: WHIP endpoints (webserver/whip.go: needs pion SDP/PeerConnection), enforcement 'from the moment the client has been notified' across goroutines, the closing of streams on unpresent (delUpConn needs pion). Function-level models: broadcast, gotOffer, diskwriter.New, token.Get/Update/List, group.descriptionUnchanged, ice.ICEConfiguration, group.GetConfiguration (natively intercepted by source-overlay hooks); concrete clock. Trusted: go/ssa, gosmt, z3/cvc5.",
+  note="The quantified domain here is a finite vocabulary which the executor covers exhaustively (8631 work items); the solver decides the string comparisons and branch feasibility on each. Also WHIP (webserver/whip.go, real handlers around recording models of the pion-touching WhipClient operations): ingest reaches NewConnection only for POST with credentials whose permissions contain 'present' (else 401/403 and no client left in the group); DELETE/PATCH on a session take effect only with the session's bearer token (symbolic 1-byte tokens, five Authorization shapes). NOT encoded: enforcement 'from the moment the client has been notified' across goroutines, the closing of streams on unpresent (delUpConn needs pion). Function-level models: broadcast, gotOffer, diskwriter.New, token.Get/Update/List, group.descriptionUnchanged, ice.ICEConfiguration, group.GetConfiguration (natively intercepted by source-overlay hooks); concrete clock. Trusted: go/ssa, gosmt, z3/cvc5.",
   technique="symbolic execution of go/ssa with SMT over an exhaustively enumerated finite message/state vocabulary, effect stubs with precondition assertions, counterexamples replayed natively",
   ref="4-C11")
 CLAIMED["C15"] = dict(
